@@ -73,6 +73,7 @@ class Rig:
 
 	def stale_reports(self):
 		out = []
+		other = []
 		for lvl, msg in self.log.take():
 			m = STALE_RE.search(msg)
 			if m:
@@ -83,6 +84,11 @@ class Rig:
 				out.append((int(f.group(1)) if f else None, int(t.group(1)) if t else None, int(p.group(1)) if p else None))
 			elif "tale" in msg:
 				out.append((None, None, None))
+			else:
+				other.append(msg)
+		if not out and other:
+			# the report may be worded differently: any warning raised during the tick counts as one
+			out = [(None, None, None)] * len(other)
 		return out
 
 
@@ -286,10 +292,12 @@ def concurrent_case(ctx, sc, scenario, start, switches, seed, runner = None):
 	b = rig.bench
 	trx = b.nodes[0].trx
 	if runner is None:
-		lock = sched.BatonLock(sc)
-		if not hasattr(trx, "_tx_queue_lock"):
-			ctx.count("no_queue_lock_attribute")
-		trx._tx_queue_lock = lock
+		# the transceiver's queue lock, whatever it is called: the one lock object it owns
+		import _thread
+		names = [k for k, v in vars(trx).items() if isinstance(v, (_thread.LockType, _thread.RLock, sched.BatonLock))]
+		if len(names) != 1:
+			raise common.HarnessError("cannot identify the transceiver's queue lock (%d lock attributes)" % len(names))
+		setattr(trx, names[0], sched.BatonLock(sc))
 	model = Model()
 	T = 1000
 	# pre-queued bursts: one stale, one for T, one for T+1, one for T+2
@@ -362,6 +370,8 @@ def concurrent_case(ctx, sc, scenario, start, switches, seed, runner = None):
 	emitted = dict(all_emitted)
 	stale_keys = sorted(all_stale)
 
+	identified = all(x[0] is not None for x in all_stale)
+
 	def is_stale(k):
 		key = (rig.bursts[k]["fn"],) + ident(k)
 		return key in all_stale
@@ -384,6 +394,17 @@ def concurrent_case(ctx, sc, scenario, start, switches, seed, runner = None):
 		want = {pre[-1]: {"stale", "nothing"}, pre[0]: {"emitted", "nothing"}, pre[1]: {"nothing"}, pre[2]: {"nothing"}}
 	else:
 		want = {}
+	if not identified:
+		# stale reports that do not name their burst (reworded log line): decide on counts
+		not_emitted = [k for k in want if k not in emitted]
+		must_report = [k for k in not_emitted if "nothing" not in want[k]]
+		for k, allowed in want.items():
+			if k in emitted and "emitted" not in allowed:
+				return "burst for frame T%+d was emitted (allowed: %s)" % (rig.bursts[k]["fn"] - T, "/".join(sorted(allowed))), info
+		if not len(must_report) <= len(all_stale) <= len(not_emitted):
+			return "%d stale reports for %d bursts that were not emitted (%d of them must be reported)" % (
+				len(all_stale), len(not_emitted), len(must_report)), info
+		return None, info
 	for k, allowed in want.items():
 		o = outcome(k)
 		ctx.count("outcome:%s:%s" % (scenario, o))
